@@ -118,3 +118,34 @@ Proof.
   - destruct (term_eqb (lock_key_of LPbkdf2 (Bytes a_pass)) (lock_key_of LPbkdf2 pass)) eqn:E; [|reflexivity].
     apply term_eqb_eq in E. unfold lock_key_of in E. inversion E. congruence.
 Qed.
+
+(* ---------- fresh nonces ---------- *)
+Lemma clash_number k n : forall ks i, (n < i)%N -> clash k n (number i ks) = false.
+Proof.
+  induction ks as [|x r IH]; intros i H; cbn; [reflexivity|].
+  replace (N.eqb i n) with false by (symmetry; apply N.eqb_neq; lia).
+  rewrite andb_false_r. cbn. apply IH. lia.
+Qed.
+
+Lemma discipline_number : forall ks i, discipline (number i ks) = true.
+Proof.
+  induction ks as [|x r IH]; intro i; cbn; [reflexivity|].
+  rewrite clash_number by lia. cbn. apply IH.
+Qed.
+
+Lemma clash_spec k n l : clash k n l = true <-> In (k, n) l.
+Proof.
+  unfold clash. rewrite existsb_exists. split.
+  - intros ((k', n') & I & H). cbn in H. apply andb_true_iff in H as [H1 H2].
+    apply term_eqb_eq in H1. apply N.eqb_eq in H2. subst. exact I.
+  - intro I. exists (k, n). split; [exact I|]. cbn. rewrite term_eqb_refl, N.eqb_refl. reflexivity.
+Qed.
+
+Lemma discipline_NoDup l : discipline l = true <-> NoDup l.
+Proof.
+  induction l as [|[k n] r IH]; cbn; split; intro H; try reflexivity; try constructor.
+  - apply andb_true_iff in H as [H1 H2]. intro I. apply clash_spec in I. rewrite I in H1. discriminate.
+  - apply andb_true_iff in H as [H1 H2]. apply IH. exact H2.
+  - inversion H; subst. apply andb_true_iff. split; [|apply IH; assumption].
+    destruct (clash k n r) eqn:E; [apply clash_spec in E; contradiction | reflexivity].
+Qed.
